@@ -980,6 +980,8 @@ class Walker:
                                 val = ("vec", hvv[2])
                 if rr is not None and short(rr) in ("Option::map", "Option::and_then") and len(args) == 2 and args[1][0] == "closure" and self._desugar_option_adaptor(short(rr), args, t, st, path, visited, bb):
                     return
+                if rr is not None and rr in ("core::bool::<impl bool>::then", "std::bool::<impl bool>::then", "core::bool::<impl bool>::then_some", "std::bool::<impl bool>::then_some", "bool::<impl bool>::then", "bool::<impl bool>::then_some") and len(args) == 2 and t["t"] is not None and self._desugar_bool_then(rr.endswith("then_some"), args, t, st, path, visited, bb):
+                    return
                 if rr is not None and _SLICE_GET.match(rr) and len(args) == 2 and t["t"] is not None and fn is not None and "Range" not in " ".join(fn.get("targs", [])):
                     # v.get(i) is the guarded index it abbreviates: Some(&v[i]) when i < len(v), None otherwise
                     atom = mk_lt(args[1], mk_len(args[0]))
@@ -1021,6 +1023,61 @@ class Walker:
                 self._switch(bb, t, v, st, path, visited)
                 return
             raise RuntimeError("unknown terminator " + k)
+
+    def _desugar_bool_then(self, is_some, args, t, st, path, visited, bb):
+        """`c.then(|| e)` / `c.then_some(e)`: Some(e) when c, None otherwise."""
+        cond = args[0]
+        subs = [None]
+        if not is_some:
+            if args[1][0] != "closure" or self.facts is None:
+                return False
+            cb = self.facts.body(args[1][1])
+            if cb is None or len(cb.blocks) > 40 or cb.argc != 1:
+                return False
+            env1 = ("ref", args[1]) if strip_lt(cb.locals[1]["ty"]).startswith("&") else args[1]
+            sub = Walker(cb, self.facts, impure=self.impure, max_paths=64, init_env={1: env1}, max_visits=1)
+            try:
+                sub.run()
+            except Exception:
+                return False
+            if sub.truncated or not sub.paths or any(q.end != "return" for q in sub.paths):
+                return False
+            subs = sub.paths
+        if cond == TRUE or cond == FALSE:
+            outcomes = [cond == TRUE]
+        else:
+            known = st["known"].get(cond)
+            outcomes = [known] if known in (True, False) else [True, False]
+        for o in outcomes:
+            for q in (subs if o else [None]):
+                st2 = {"env": dict(st["env"]), "heap": dict(st["heap"]), "known": dict(st["known"]), "epoch": st["epoch"], "subst": dict(st["subst"]), "mutn": st.get("mutn", 0)}
+                p2 = Path()
+                p2.guards = list(path.guards)
+                p2.effects = list(path.effects)
+                p2.blocks = list(path.blocks)
+                if cond not in (TRUE, FALSE) and cond not in st["known"]:
+                    st2["known"][cond] = o
+                    p2.guards.append((cond, o))
+                if not o:
+                    val = ("enumc", "std::option::Option", "None")
+                elif is_some:
+                    val = ("agg", "std::option::Option", "Some", ("0",), (args[1],))
+                else:
+                    bad_ = False
+                    for a, oo in q.guards:
+                        if st2["known"].get(a, oo) != oo:
+                            bad_ = True
+                            break
+                        if a not in st2["known"]:
+                            st2["known"][a] = oo
+                            p2.guards.append((a, oo))
+                    if bad_:
+                        continue
+                    p2.effects.extend(q.effects)
+                    val = ("agg", "std::option::Option", "Some", ("0",), (q.ret,))
+                self._assign(t["dest"], val, st2, p2, bb)
+                self._go(t["t"], st2, p2, visited)
+        return True
 
     def _desugar_option_adaptor(self, name, args, t, st, path, visited, bb):
         """`x.map(|v| e)` / `x.and_then(|v| e)` with a closure of this crate is the match it abbreviates: None -> None,
